@@ -68,17 +68,14 @@ Qed.
 
 Example ex_pq_hyps :
   (forall g m c, mm_pq g = Some m -> In (EQ c) (m_edges m) -> (rank_pq c < rank_pq g)%nat) /\
-  (forall g m c, mm_pq g = Some m -> In (EQ c) (m_edges m) -> mm_pq c <> None) /\
-  (forall e, In e [EQ (3, 0)] -> (erank rank_pq e < FUEL)%nat /\ has_memo mm_pq e) /\
+  (forall e, In e [EQ (3, 0)] -> (erank rank_pq e < FUEL)%nat) /\
   lost_untracked pfam mm_pq FUEL [EQ (3, 0)] = false /\
   flatten pfam mm_pq FUEL [EQ (3, 0)] = [EIn (0, 0)].
 Proof.
-  split; [|split; [|split; [|split]]].
+  split; [|split; [|split]].
   - intros g m c Hm Hc. destruct (mm_pq_cases g m Hm) as [(-> & ->)|(-> & ->)]; cbn in Hc;
       destruct Hc as [Hc|[]]; try discriminate. injection Hc as <-. vm_compute. lia.
-  - intros g m c Hm Hc. destruct (mm_pq_cases g m Hm) as [(-> & ->)|(-> & ->)]; cbn in Hc;
-      destruct Hc as [Hc|[]]; try discriminate. injection Hc as <-. vm_compute. discriminate.
-  - intros e [<-|[]]. split; [vm_compute; lia | vm_compute; discriminate].
+  - intros e [<-|[]]. vm_compute; lia.
   - vm_compute. reflexivity.
   - vm_compute. reflexivity.
 Qed.
@@ -263,3 +260,50 @@ Proof.
   split; [vm_compute; reflexivity|]. split; [cbn; repeat split|].
   intros Hc. specialize (Hc (0, 0) (3, 0) eq_refl (calls_here (3, 0) _)). discriminate Hc.
 Qed.
+
+(* ---------------------------------------------------------------- F4 (fixed): memo-less dependency *)
+(* The former STALE VALUE (a dependency WITHOUT memo was dropped by flattening; fixed in /repo:
+   collect_minimum_serialized_edges keeps the edge of a dependency it cannot expand).
+   plain(0) = np(0), np(0) = plain(1), plain(1) = lru_fn(0), lru_fn(k) = input k.0
+   (plain, lru_fn persisted; np not; lru_fn has capacity 2).
+   1. plain(1) is computed; lru_fn(0) is evicted by the next revision; plain(1) is validated in
+      it (lru_fn(0) is validated without a value).
+   2. snapshot: the value-less lru_fn(0) is not serialised (F3), plain(1) is, with its edge to it.
+   3. restore; plain(0) is computed: np(0) is executed, plain(1) is returned from its restored
+      memo (verified in this revision, no walk), so lru_fn(0) still has NO memo.
+   4. snapshot: flattening plain(0) expands np(0), then — no persistability test in the inner
+      recursion of collect_minimum_serialized_edges — expands plain(1), whose only edge leads to a
+      function WITHOUT memo: the edge is kept.  (Before the fix: nothing was collected, plain(0)
+      was serialised tracked with NO edges, and step 5 returned the stale 1.)
+   5. restore; lru_fn is called once (F1); input 0.0 := 7; plain(0): the kept edge is walked,
+      lru_fn(0) is executed and has changed, plain(0) is executed again and returns 7. *)
+Definition prog_f4 (q : qkey) : body :=
+  if key_eqb q (0, 0) then CallQ (3, 0) Ret
+  else if key_eqb q (3, 0) then CallQ (0, 1) Ret
+  else if key_eqb q (0, 1) then CallQ (1, 0) Ret
+  else if fst q =? 1 then RdIn (snd q, 0) Ret
+  else Ret 0.
+Definition ops_f4 : list op :=
+  [OGet (0, 1); OGet (1, 1); OGet (1, 2); OSynth 0; OGet (0, 1); OSnapshot; ORestore;
+   OGet (0, 0); OSnapshot; ORestore; OGet (1, 5); OSet (0, 0) 7 None; OGet (0, 0)].
+
+Example ex_f4_fixed :
+  let r := run prog_f4 [1] lru2 ops_f4 in
+  last (snd r) PFuel = POk 7 /\                                                   (* the last request returns 7 *)
+  evalo prog_f4 FUEL (snap_of (ps_db (fst r))) (0, 0) = Some 7 /\               (* = from scratch *)
+  firstn 4 (d_log (ps_db (fst r))) = [EvExec (1, 0); EvExec (0, 1); EvExec (3, 0); EvExec (0, 0)] /\
+  (* the second serialised memo of plain(0): tracked, the kept edge *)
+  option_map (fun m => (m_untracked m, m_edges m, m_verified m))
+    (d_memo (ps_db (fst (run prog_f4 [1] lru2 (firstn 10 ops_f4)))) (0, 0)) = Some (false, [EQ (1, 0)], 2) /\
+  (* lru_fn(0) has no memo in the first restored database, plain(1) keeps its edge to it *)
+  d_memo (ps_db (fst (run prog_f4 [1] lru2 (firstn 8 ops_f4)))) (1, 0) = None /\
+  option_map m_edges (d_memo (ps_db (fst (run prog_f4 [1] lru2 (firstn 8 ops_f4)))) (0, 1)) = Some [EQ (1, 0)].
+Proof. vm_compute. repeat split. Qed.
+
+(* without the call of lru_fn after the second restore the kept edge leads to an uninitialised
+   function ingredient: the known class F1, not a stale value *)
+Example ex_f4_cold :
+  last (snd (run prog_f4 [1] lru2
+    [OGet (0, 1); OGet (1, 1); OGet (1, 2); OSynth 0; OGet (0, 1); OSnapshot; ORestore;
+     OGet (0, 0); OSnapshot; ORestore; OSet (0, 0) 7 None; OGet (0, 0)])) PFuel = PPanic PUninit.
+Proof. vm_compute. reflexivity. Qed.
